@@ -287,7 +287,7 @@ func (p *Program) MethodsNamed(name string, filter func(sig *types.Signature) bo
 			}
 			for i := 0; i < named.NumMethods(); i++ {
 				m := named.Method(i)
-				if m.Name() != name {
+				if FNm(m) != name {
 					continue
 				}
 				if filter != nil && !filter(m.Type().(*types.Signature)) {
@@ -299,7 +299,7 @@ func (p *Program) MethodsNamed(name string, filter func(sig *types.Signature) bo
 			}
 		}
 	}
-	sort.Slice(out, func(i, j int) bool { return out[i].String() < out[j].String() })
+	sort.Slice(out, func(i, j int) bool { return FStr(out[i]) < FStr(out[j]) })
 	return out
 }
 
